@@ -10,12 +10,15 @@ import (
 	"errors"
 	"flag"
 	"fmt"
+	goast "go/ast"
+	goparser "go/parser"
+	"go/token"
 	"os"
 	"runtime"
+	"strconv"
 	"strings"
 	"sync"
 	"time"
-	"unicode/utf8"
 
 	regexp2 "github.com/dlclark/regexp2/v2"
 	"github.com/dlclark/regexp2/v2/compat"
@@ -68,6 +71,9 @@ func init() {
 		fs := flag.NewFlagSet("replay-tokens", flag.ExitOnError)
 		in := fs.String("i", "-", "TLC output of Gen_Tokens")
 		nopt := fs.Int("nopt", 3, "option subsets per pattern")
+		harvest := fs.String("harvest", "", "repository root: every string literal of its *_test.go files is a further pattern")
+		hstride := fs.Int("hstride", 1, "take every hstride-th harvested literal ...")
+		hoffset := fs.Int("hoffset", 0, "... starting at this one")
 		corpus := fs.String("corpus", "", "directory whose files are additional patterns (the repository's parser corpus)")
 		fs.Parse(args)
 		f := os.Stdin
@@ -93,14 +99,15 @@ func init() {
 			mu.Unlock()
 		}
 		type job struct {
-			toks []int
-			raw  string
+			toks  []int
+			raw   string
+			extra []string // further inputs for this pattern
 		}
 		work := make(chan job, 256)
 		var wg sync.WaitGroup
 		optionSets := []regexp2.RegexOptions{0, regexp2.IgnoreCase | regexp2.IgnorePatternWhitespace, regexp2.RE2, regexp2.ECMAScript, regexp2.RightToLeft | regexp2.Multiline,
 			regexp2.ExplicitCapture | regexp2.Singleline, regexp2.ECMAScript | regexp2.Unicode, regexp2.IgnoreCase | regexp2.RightToLeft | regexp2.RE2}
-		runOne := func(toks []int, raw string) {
+		runOne := func(toks []int, raw string, extra []string) {
 			var sb strings.Builder
 			for _, t := range toks {
 				sb.WriteString(tokenAlphabet[t%len(tokenAlphabet)])
@@ -194,8 +201,8 @@ func init() {
 				mu.Unlock()
 				re.MatchTimeout = 150 * time.Millisecond
 				ad := compat.Wrap(re)
-				for ii, input := range tokenInputs {
-					if (h+ii)%3 != 0 && ii > 1 {
+				for ii, input := range append(append([]string{}, tokenInputs...), extra...) {
+					if (h+ii)%3 != 0 && ii > 1 && ii < len(tokenInputs) {
 						continue
 					}
 					runes := []rune(input)
@@ -215,13 +222,13 @@ func init() {
 					guard("FindAllStringIndex", input, opt, func() error { _, e := re.FindAllStringIndex(input, -1); return e }, nil, nil)
 					for _, st := range []int{-3, -1, 0, 1, len(input), len(input) + 1, len(input) + 50} {
 						st := st
-						onB := st >= 0 && st <= len(input) && (st == len(input) || utf8.RuneStart(input[st]) && func() bool {
-							for i := range input {
+						onB := st >= 0 && st <= len(input) && (st == len(input) || st == 0 || func() bool {
+							for i := range input { // the decoder's rune starts: an invalid byte is a rune of width 1
 								if i == st {
 									return true
 								}
 							}
-							return st == 0
+							return false
 						}())
 						want := st > len(input) || (st >= 0 && st <= len(input) && !onB)
 						guard(fmt.Sprintf("FindStringMatchStartingAt(%d)", st), input, opt, func() error { _, e := re.FindStringMatchStartingAt(input, st); return e }, &want, nil)
@@ -269,7 +276,7 @@ func init() {
 			go func() {
 				defer wg.Done()
 				for t := range work {
-					runOne(t.toks, t.raw)
+					runOne(t.toks, t.raw, t.extra)
 				}
 			}()
 		}
@@ -301,7 +308,26 @@ func init() {
 					continue
 				}
 				corpusFiles++
-				work <- job{raw: string(data)}
+				work <- job{raw: string(data), extra: derivedInputs(string(data))}
+			}
+		}
+		harvested := 0
+		if *harvest != "" {
+			lits := harvestLiterals(*harvest)
+			for i, l := range lits {
+				if i%*hstride != *hoffset%*hstride {
+					continue
+				}
+				// inputs: derived from the pattern itself, and the literals next to it in the same file (tests keep
+				// a pattern and its subject strings together)
+				extra := derivedInputs(l)
+				for d := 1; d <= 3; d++ {
+					if i+d < len(lits) && len(lits[i+d]) <= 200 {
+						extra = append(extra, lits[i+d])
+					}
+				}
+				harvested++
+				work <- job{raw: l, extra: extra}
 			}
 		}
 		close(work)
@@ -309,11 +335,78 @@ func init() {
 		if mism == nil {
 			mism = []tokMismatch{}
 		}
-		out := map[string]any{"patterns": patterns, "compiled": compiled, "parse_errors": parseErrs, "calls": calls, "argument_errors_seen": argErrs, "mismatches": mism, "samples": samples, "ntokens": len(tokenAlphabet), "corpus_files": corpusFiles}
+		out := map[string]any{"patterns": patterns, "compiled": compiled, "parse_errors": parseErrs, "calls": calls, "argument_errors_seen": argErrs, "mismatches": mism, "samples": samples, "ntokens": len(tokenAlphabet), "corpus_files": corpusFiles, "harvested": harvested}
 		enc := json.NewEncoder(os.Stdout)
 		enc.SetEscapeHTML(false)
 		enc.Encode(out)
 		return 0
 	}
 	commands["ntokens"] = func(args []string) int { fmt.Println(len(tokenAlphabet)); return 0 }
+}
+
+// derivedInputs builds subject strings out of the words of a pattern, so that inputs end exactly on, start with,
+// or contain the literals the pattern's search strategies look for
+func derivedInputs(pat string) []string {
+	var words []string
+	cur := []byte{}
+	flush := func() {
+		if len(cur) > 0 && len(cur) <= 8 && len(words) < 4 {
+			words = append(words, string(cur))
+		}
+		cur = cur[:0]
+	}
+	for i := 0; i < len(pat); i++ {
+		c := pat[i]
+		alnum := c >= '0' && c <= '9' || c >= 'a' && c <= 'z' || c >= 'A' && c <= 'Z'
+		if alnum && !(i > 0 && pat[i-1] == '\\' && len(cur) == 0) {
+			cur = append(cur, c)
+		} else {
+			flush()
+		}
+	}
+	flush()
+	out := []string{}
+	for _, w := range words {
+		out = append(out, w, "ab12 "+w, "ab12"+w, "ab12 "+w+" ", w+"@x.yz", "a1 "+w+" b2 "+w)
+	}
+	if len(words) >= 2 {
+		out = append(out, words[0]+words[1], "a1 "+words[0]+" b.c "+words[1]+" d")
+	}
+	if len(out) > 16 {
+		out = out[:16]
+	}
+	return out
+}
+
+// harvestLiterals returns the string literals (unquoted, 1..300 bytes) of the *_test.go files of a module, in
+// file order
+func harvestLiterals(root string) []string {
+	var out []string
+	seen := map[string]bool{}
+	for _, dir := range []string{"", "syntax", "compat", "helpers"} {
+		entries, err := os.ReadDir(root + "/" + dir)
+		if err != nil {
+			continue
+		}
+		for _, e := range entries {
+			if e.IsDir() || !strings.HasSuffix(e.Name(), "_test.go") {
+				continue
+			}
+			fset := token.NewFileSet()
+			f, err := goparser.ParseFile(fset, root+"/"+dir+"/"+e.Name(), nil, 0)
+			if err != nil {
+				continue
+			}
+			goast.Inspect(f, func(n goast.Node) bool {
+				if bl, ok := n.(*goast.BasicLit); ok && bl.Kind == token.STRING {
+					if v, err := strconv.Unquote(bl.Value); err == nil && len(v) >= 1 && len(v) <= 300 && !seen[v] {
+						seen[v] = true
+						out = append(out, v)
+					}
+				}
+				return true
+			})
+		}
+	}
+	return out
 }
